@@ -47,6 +47,58 @@ pub struct Plan {
     /// None: the real clock
     #[serde(default, skip_serializing_if = "Option::is_none")]
     pub clock: Option<ClockWarp>,
+    /// None: the bare process (empty environment, dexsim's own argv). Some(k): the process wears
+    /// host mask k (`apply_host_mask`).
+    #[serde(default, skip_serializing_if = "Option::is_none")]
+    pub host: Option<u8>,
+}
+
+pub const HOST_MASKS: u8 = 4;
+
+/// Host masks: the process that executes a plan is made to look, from the inside, like one of the
+/// hosts an expander really runs in (argv[0], further arguments, environment). The expander must
+/// not care: the same request has to give the same tokens in a bare process, under `rustc` driven
+/// by cargo, inside rust-analyzer's proc-macro server, and in a process with hostile argv / env.
+/// dexsim ignores positional and unknown arguments, so the extra ones are inert for the harness.
+pub fn apply_host_mask(cmd: &mut std::process::Command, mask: u8) {
+    use std::ffi::OsStr;
+    use std::os::unix::ffi::OsStrExt;
+    use std::os::unix::process::CommandExt;
+    match mask % HOST_MASKS {
+        0 => {}
+        1 => {
+            cmd.arg0("/home/u/.rustup/toolchains/stable-x86_64-unknown-linux-gnu/bin/rustc");
+            cmd.args([
+                "--host-args", "-", "x", "--crate-type", "lib", "--edition=2021", "src/lib.rs", "--extern",
+                "derive_ex=/home/u/x/target/debug/deps/libderive_ex-0123456789abcdef.so", "-C", "debuginfo=2",
+            ]);
+            for (k, v) in [
+                // identity of the host only: nothing that describes the crate being built (manifest
+                // directory, package name, OUT_DIR), which a macro may legitimately consult
+                ("CARGO", "/home/u/.cargo/bin/cargo"), ("RUSTC", "rustc"), ("RUSTUP_TOOLCHAIN", "stable-x86_64-unknown-linux-gnu"),
+                ("HOME", "/home/u"), ("USER", "u"), ("PATH", "/usr/bin:/bin"), ("LANG", "en_US.UTF-8"), ("TERM", "xterm-256color"),
+            ] {
+                cmd.env(k, v);
+            }
+        }
+        2 => {
+            cmd.arg0("/home/u/.vscode/extensions/rust-lang.rust-analyzer-0.3.2000-linux-x64/server/rust-analyzer");
+            cmd.args(["--host-args", "-", "proc-macro"]);
+            for (k, v) in [
+                ("RUST_ANALYZER_INTERNALS_DO_NOT_USE", "this is unstable"), ("RA_LOG", "error"), ("HOME", "/home/u"),
+                ("PATH", "/usr/bin:/bin"), ("LANG", "C"), ("VSCODE_PID", "4242"), ("ELECTRON_RUN_AS_NODE", "1"),
+            ] {
+                cmd.env(k, v);
+            }
+        }
+        _ => {
+            // hostile but legal: names and values that are not UTF-8, an empty and a very long argument
+            cmd.arg0(OsStr::from_bytes(b"/tmp/\xff\xfe dir/ho\xc3st"));
+            cmd.arg("--host-args").arg("-").arg(OsStr::from_bytes(b"\xff\xfe")).arg("").arg("a".repeat(65536)).arg("--").arg("-");
+            cmd.env(OsStr::from_bytes(b"X\xff"), OsStr::from_bytes(b"\xfe\xff"));
+            cmd.env("EMPTY", "").env("LANG", "xx_XX.bogus").env("HOME", "").env("PATH", "");
+        }
+    }
 }
 
 impl Plan {
@@ -72,6 +124,7 @@ impl Plan {
                 kinds: vec![],
             }],
             clock: None,
+            host: None,
         }
     }
     /// Drops requests no step refers to and renumbers.
